@@ -250,12 +250,12 @@ class KeyedList(Generic[ItemType, KeyType], MutableSequence, KeyedBase):  # pyli
 
     def __add__(self, other):
         if isinstance(other, Sequence):
-            return type(self)([*self._list, *other])
+            return type(self)([*self._list, *other], key=self._key)
         return NotImplemented
 
     def __radd__(self, other):
         if isinstance(other, Sequence):
-            return type(self)([*other, *self._list])
+            return type(self)([*other, *self._list], key=self._key)
         return NotImplemented
 
     def __repr__(self):
